@@ -951,13 +951,6 @@ Qed.
 
 (* (c) reading with omit produces nothing and looks at nothing but the row types: any other rows
    of the same types, under any other context, are skipped in the same way *)
-Definition same_skip (a b : res (list raw * list raw)) : Prop :=
-  match a, b with
-  | ROk (o, rem), ROk (o', rem') => o = [] /\ o' = [] /\ map rw_kind rem = map rw_kind rem'
-  | RErr e, RErr e' => e = e'
-  | _, _ => False
-  end.
-
 Theorem ds_omit_types_only : forall f rest rest' c c' bt,
   map rw_kind rest = map rw_kind rest' ->
   same_skip (DS f rest c bt true) (DS f rest' c' bt true).
@@ -997,23 +990,10 @@ Proof.
     replace (S n + k) with (n + S k) by lia. exact He'.
 Qed.
 
-(* the row [r], read in context [c], is the head of a loop that is not skipped, over variable [x] *)
-Definition loop_head (c : ctx) (r : raw) (row : irow) (x : str) (more : list str) : Prop :=
-  instantiate pol c r = ROk row /\ i_kind row = KBeginFor /\ i_inc row = true
-  /\ i_vars row = x :: more /\ x <> [].
-
-(* [bodies] = the desugared loop body, once per element of [elems], the k-th one in the context
-   extended with x := the k-th element (and the index variable := k); [rem] = what follows end_for *)
-Definition bodies_of (f : nat) (rest : list raw) (c : ctx) (x : str) (idx : option str) (elems : list str)
-           (bodies : list (list raw)) (rem : list raw) : Prop :=
-  length bodies = length elems
-  /\ forall k e, nth_error elems k = Some e ->
-       exists b, nth_error bodies k = Some b /\ DS f rest (bind_loop c x idx e k) BFor false = ROk (b, rem).
-
 Theorem ds_loop f r rest c bt row x more :
-  loop_head c r row x more -> i_iter row <> [] ->
+  loop_head pol c r row x more -> i_iter row <> [] ->
   forall bodies rem out rem',
-    bodies_of f rest c x (idx_of more) (i_iter row) bodies rem ->
+    bodies_of pol f rest c x (idx_of more) (i_iter row) bodies rem ->
     DS f rem c bt false = ROk (out, rem') ->
     DS (S f) (r :: rest) c bt false
     = ROk (lit_row KBeginBlock (i_id row) (i_text row) :: concat bodies ++ end_row :: out, rem').
@@ -1028,7 +1008,7 @@ Qed.
 
 (* a loop over nothing: an empty block; its body is found by reading with omit (c) *)
 Theorem ds_loop_empty f r rest c bt row x more o rem out rem' :
-  loop_head c r row x more -> i_iter row = [] ->
+  loop_head pol c r row x more -> i_iter row = [] ->
   DS f rest c BFor true = ROk (o, rem) ->
   DS f rem c bt false = ROk (out, rem') ->
   DS (S f) (r :: rest) c bt false
@@ -1045,25 +1025,10 @@ Qed.
    variable (an inner variable of the same name shadows the outer one, and only inside).
    heads/inner/tails: per outer element, the inner head as read there, the copies of the inner body,
    and the desugared rest of the outer body *)
-Definition nested_bodies_of (f : nat) (r2 : raw) (rest : list raw) (c : ctx) (x : str) (idx : option str) (elems : list str)
-           (y : str) (more2 : list str)
-           (heads : list irow) (inner : list (list (list raw))) (tails : list (list raw)) (rem : list raw) : Prop :=
-  length heads = length elems /\ length inner = length elems /\ length tails = length elems
-  /\ forall k e, nth_error elems k = Some e ->
-       let ck := bind_loop c x idx e k in
-       exists row2 Bk tail rem2,
-         nth_error heads k = Some row2 /\ nth_error inner k = Some Bk /\ nth_error tails k = Some tail
-         /\ loop_head ck r2 row2 y more2 /\ i_iter row2 <> []
-         /\ bodies_of f rest ck y (idx_of more2) (i_iter row2) Bk rem2
-         /\ DS f rem2 ck BFor false = ROk (tail, rem).
-
-Definition nested_block (hbt : irow * (list (list raw) * list raw)) : list raw :=
-  lit_row KBeginBlock (i_id (fst hbt)) (i_text (fst hbt)) :: concat (fst (snd hbt)) ++ end_row :: snd (snd hbt).
-
 Theorem ds_nested_loops f r1 r2 rest c bt row1 x more y more2 :
-  loop_head c r1 row1 x more -> i_iter row1 <> [] ->
+  loop_head pol c r1 row1 x more -> i_iter row1 <> [] ->
   forall heads inner tails rem out rem',
-    nested_bodies_of f r2 rest c x (idx_of more) (i_iter row1) y more2 heads inner tails rem ->
+    nested_bodies_of pol f r2 rest c x (idx_of more) (i_iter row1) y more2 heads inner tails rem ->
     DS (S f) rem c bt false = ROk (out, rem') ->
     DS (S (S f)) (r1 :: r2 :: rest) c bt false
     = ROk (lit_row KBeginBlock (i_id row1) (i_text row1)
@@ -1129,4 +1094,35 @@ Theorem desugar_idempotent pol rows c rows' c' :
   desugar pol c rows = ROk rows' -> desugar pol c' rows' = ROk rows'.
 Proof.
   intros Hd. destruct (desugar_LitSem _ _ _ _ Hd) as [tk Hs]. exact (ds_fixed_point pol _ _ c' Hs).
+Qed.
+
+(* ------------------------------------------------------------------ 6. excluded content, in one statement *)
+Lemma skip_events_no_tokens ev : Forall skip_event ev -> rtoks ev = [].
+Proof.
+  induction 1 as [|e ev He _ IH]; [reflexivity|]. rewrite rtoks_cons, IH.
+  destruct e as [p|i t|b [|]| |i]; try contradiction. reflexivity.
+Qed.
+
+(* rows under a false include_if and omitted blocks: removed by the desugaring (a, b), never looked at
+   beyond their types (c), and — in the parser — never instantiated and without any token (d) *)
+Theorem excluded_content_removed pol :
+  (forall f r rest c bt,
+     eval_inc pol c (rw_inc r) = ROk false -> rw_kind r = KPlain ->
+     ds pol (S f) (r :: rest) c bt false = ds pol f rest c bt false)
+  /\ (forall f r rest c bt,
+     eval_inc pol c (rw_inc r) = ROk false -> (rw_kind r = KBeginFor \/ rw_kind r = KBeginBlock) ->
+     ds pol (S f) (r :: rest) c bt false
+     = match ds pol f rest c (match rw_kind r with KBeginFor => BFor | _ => BBlock end) true with
+       | ROk (_, rest2) => ds pol f rest2 c bt false
+       | RErr e => RErr e
+       end)
+  /\ (forall f rest rest' c c' bt,
+     map rw_kind rest = map rw_kind rest' -> same_skip (ds pol f rest c bt true) (ds pol f rest' c' bt true))
+  /\ (forall scope emp tol rows f s bt s',
+     parse_block pol scope emp tol rows f s bt true = ROk s' ->
+     p_ctx s' = p_ctx s /\ exists ev, p_log s' = ev ++ p_log s /\ Forall skip_event ev /\ toks (rev ev) = []).
+Proof.
+  split; [exact (ds_excluded_row pol)|]. split; [exact (ds_excluded_block pol)|]. split; [exact (ds_omit_types_only pol)|].
+  intros scope emp tol rows f s bt s' H. destruct (omit_is_inert _ _ _ _ _ _ _ _ _ H) as [Hc [ev [Hl Hf]]].
+  split; [exact Hc|]. exists ev. repeat split; try assumption. exact (skip_events_no_tokens _ Hf).
 Qed.
